@@ -324,13 +324,18 @@ class PythonToIrCompiler:
         i_phi.set_incoming(entry_block, i_init)
         self.emit(ir.CJump(i_phi, "<", n2, body_block, final_block))
 
-        # Publish looping variable:
-        self.local_map[statement.target.id] = Var(i_phi, False, ir.i64)
-
         # Body. A continue statement must still advance the loop variable,
         # so it jumps to the increment block:
         self.enter_loop(increment_block, final_block)
         self.builder.set_block(body_block)
+
+        # The target of the loop is an ordinary local variable, which gets
+        # the next item assigned at the start of each iteration. It can be
+        # assigned in the body and keeps its last value after the loop:
+        if not isinstance(statement.target, ast.Name):
+            self.error(statement.target, "Only a name supported as target")
+        self.store_value(statement.target, i_phi)
+
         self.gen_statement(statement.body)
         self.leave_loop()
 
